@@ -87,7 +87,10 @@ func (r *Reconciler) Reconcile(ctx context.Context, request reconcile.Request) (
 
 	edsNodesList := &datadoghqv1alpha1.ExtendedDaemonsetSettingList{}
 	if err = r.client.List(ctx, edsNodesList, &client.ListOptions{Namespace: instance.Namespace}); err != nil {
-		return r.updateExtendedDaemonsetSetting(ctx, instance, newStatus)
+		// Without the other settings no verdict can be computed: report the failure so that the request is retried.
+		// (Writing the unchanged status here is a no-op that returns no error: the request would be dropped and the
+		// setting would keep its previous - possibly empty - status until some unrelated event.)
+		return reconcile.Result{}, err
 	}
 
 	nodesList := &corev1.NodeList{}
